@@ -1014,7 +1014,9 @@ class KmipEngine(object):
             attribute_list = []
             if attribute_name == "Name":
                 attribute_list = managed_object.names
-                if attribute_value is not None:
+                if isinstance(attribute_value, attributes.Name):
+                    attribute_value = attribute_value.name_value.value
+                elif attribute_value is not None:
                     attribute_value = attribute_value.value
             elif attribute_name == "Application Specific Information":
                 attribute_list = managed_object.app_specific_info
